@@ -34,6 +34,14 @@ def adapt_harness(site, text, src):
     (recognised by signature / field type).  Only exact identifier occurrences are replaced; nothing else changes."""
     plain = re.sub(r'//[^\n]*', '', src)
     notes = []
+    try:
+        import fnroles
+        for cur, pinned in fnroles.type_renames(REPO).items():
+            if re.search(r'\b' + re.escape(pinned) + r'\b', text):
+                text = re.sub(r'\b' + re.escape(pinned) + r'\b', cur, text)
+                notes.append(f'type {pinned} -> {cur}')
+    except Exception:
+        pass
     for pinned, sig in ROLE_FNS.get(site, []):
         if re.search(r'\bfn\s+' + re.escape(pinned) + r'\b', plain):
             continue
